@@ -40,6 +40,7 @@ PROPS = {
     "C09": dict(fam=["route", "cls", "tandem", "prio"], mc=["route", "cls", "tandem"], inv=["Inv_C09"], step=["Step_C09"]),
     "C11": dict(fam=["preempt"], mc=["preempt"], inv=["Inv_C11"], step=["Step_C11"]),
     "C13": dict(fam=["renege", "core1"], mc=["renege"], inv=["Inv_C13"], step=["Step_C13"]),
+    "C16": dict(fam=["pause"], mc=["pause"], inv=["Inv_C04", "Inv_C01"], step=["Step_C16"]),
     "C17": dict(fam=["trk"], mc=["trk", "dead"], inv=["Inv_C17"], step=["Step_C17"]),
     "C18": dict(fam=["dead"], mc=["dead"], inv=["Inv_C18"], step=["Step_C18"]),
     "C19": dict(fam=["ps", "psfifo"], mc=["ps"], inv=["Inv_C19"], step=["Step_C19"]),
@@ -48,7 +49,7 @@ PROPS = {
                 mc=["core1", "stopcount"], inv=[], step=["Step_C14"]),
 }
 
-ALLFAM = ["mix", "mix", "mix", "jockey", "slotpre", "renegesched", "schedblock", "infblock", "ppsched", "ps", "core1", "tandem", "prio", "preempt", "cls", "clsren", "renege", "route", "sched", "schedpre", "schedblock",
+ALLFAM = ["mix", "mix", "mix", "pause", "jockey", "slotpre", "renegesched", "schedblock", "infblock", "ppsched", "ps", "core1", "tandem", "prio", "preempt", "cls", "clsren", "renege", "route", "sched", "schedpre", "schedblock",
           "slot", "ccw", "trk", "reroute", "stopcount"]
 
 TIERS = {
@@ -443,7 +444,7 @@ def run_pair_check(prop, tier, seed):
           "violations": len(viol), "wall_s": round(time.time() - t0, 1)}
     if not os.environ.get("CIWVERIF_NOEVIDENCE"):
         evp = os.path.join(VERIF, "evidence", prop + ".json")
-        if prop == "C20" and os.path.exists(evp):
+        if prop in ("C20", "C16") and os.path.exists(evp):
             # C20: the pair part (agreement with the float run) complements the tick-pipeline run that just wrote the file
             base = json.load(open(evp))
             base["coverage"]["float_agreement_pairs"] = len(docs)
@@ -519,8 +520,13 @@ def main():
     try:
         if a.replay:
             rc = run_replay(a.replay)
-        elif a.prop in ("C15", "C16"):
+        elif a.prop == "C15":
             rc = run_pair_check(a.prop, a.tier, seed)
+        elif a.prop == "C16":
+            # tick part (stops as `pause` steps of the specification) then the pairs with continuous distributions
+            rc = run_check("C16", a.tier, seed)
+            if rc != 2:
+                rc = max(rc, run_pair_check("C16", a.tier, seed))
         else:
             rc = run_check(a.prop, a.tier, seed)
             if a.prop == "C20" and rc != 2:
